@@ -157,7 +157,7 @@ struct Node : Base {
 		int kk = 0, dest = 0, id = 0; bool issue = false;
 		if (!p.passive && p.chance(p.k.pGuardIssue) && pickReq(p, VH_KINDMASK, kk, dest)) { issue = true; id = p.newId(); }
 		Log& L = *p.log;
-		L.tag('g'); L.i(which); L.i(ID); L.i(cancel); L.i((int)pend.count());
+		L.tag('g'); L.i(which); L.i(ID); L.i(cancel || p.injCancel); L.i((int)pend.count()); p.injCancel = false;
 		for (unsigned i = 0; i < pend.count(); ++i) { L.i(transId(pend[i])); L.i((int)pend[i].type); L.i((int)pend[i].destination); L.i(pend[i].origin == hfsm2::INVALID_STATE_ID ? -1 : (int)pend[i].origin); }
 		L.i((int)c.currentTransitions().count());
 		L.nl();
